@@ -565,7 +565,7 @@ def _radius(m):
                 "units, best of 1 or 3 floorplans and given-centres mode, several seeds of the random start",
           params=[dict(chunk=i) for i in range(16)])
 def float_leg(chunk, replay=None):
-    from json import dumps as write_yaml        # input documents are written WITHOUT the library (JSON is a subset of YAML): the harness must not depend on the code under test
+    write_yaml = lambda d: __import__("json").dumps(d, indent=1)  # noqa: E731  input documents are written WITHOUT the library (JSON is a subset of YAML): the harness must not depend on the code under test
     from frame.geometry.geometry import Shape
     tier = os.environ.get("VERIF_TIER", "quick")
     rng = random.Random(1400 + chunk + 100 * int(os.environ.get("VERIF_SEED", "0") or 0))
